@@ -29,6 +29,10 @@ func runC06(c *Ctx) {
 	c06RejectCloses(c)
 	c06WhoCloses(c)
 	c06ClosedState(c)
+	c06SharedHandle(c)
+	// the reload entry point must install what (*db.DB).Reload returned on every success path: the old generation is
+	// already destroyed, so a skipped swap leaks the new backend and leaves a closed one served
+	c.importRules(runC05, "C05", map[string]string{"order": "reload-order"})
 }
 
 // ---------------------------------------------------------------------------
